@@ -63,7 +63,7 @@ def parseCfgTok (c : Cfg) (tok : String) : Option Cfg :=
   | ["tok", "2"] => some { c with fastUa := true, token := false }
   | ["nsp", v] => (b01 v).map fun b => { c with nsPlain := b }
   | ["ina", v] => (b01 v).map fun b => { c with inactive := b }
-  | ["ka", _] => some c   -- keep-alive timer interval: timers are outside the model (harness-only scenario, judged by the oracle alone)
+  | ["ka", v] => some { c with keepAlive := v != "0" }   -- keep-alive interval > 0 (the harness uses an hour and fires the timer itself: `tick`)
   | _ => none
 
 def parseCfg (toks : List String) : Option Cfg :=
@@ -90,7 +90,8 @@ def parseEl : List String → Option El
   | ["bindres", "nojid"] => some (.iq (.bindResult .noJid))
   | ["bindres", "err"] => some (.iq (.bindResult .error))
   | ["bindres", "wrongid"] => some (.iq (.bindResult .wrongId))
-  | ["smenabled", b] => (b01 b).map .smEnabled
+  | ["smenabled", b] => (b01 b).map fun r => .smEnabled r
+  | ["smenabledat"] => some (.smEnabled true true)
   | ["smfailed"] => some .smFailed
   | ["smresumed"] => some .smResumed
   | ["iqget", "version"] => some (.iq (.get true))
@@ -138,6 +139,7 @@ def opEvents (s : St) : List String → Option (List Ev)
   | ["sendiq"] => some [.sendIq]
   | "seg" :: rest => ((splitPlus rest).mapM parseEl).map fun es => es.map Ev.recv   -- several elements in ONE read
   | ["ws"] => some [.recvWhitespace]
+  | ["tick"] => some [.tick]
   | ["partial"] => some [.recvPartial]
   | ["errclose"] => some (errorThenClose s false)
   | ["redirectclose"] => some (errorThenClose s true)
@@ -179,6 +181,7 @@ def showKind : Kind → String
   | .smAck => "SmAck"
   | .iqReply e => if e then "IqReply:error" else "IqReply:result"
   | .iqRequest r => if r then "IqRequest:roster" else "IqRequest:other"
+  | .ping => "IqRequest:ping"
   | .presence => "Presence"
   | .csiActive => "CsiActive"
   | .csiInactive => "CsiInactive"
@@ -196,7 +199,8 @@ def showOut : Out → String
 def showState (s : St) : String :=
   let st := if isConnected s then "connected" else if s.conn = .disconnected then "disconnected" else "connecting"
   let n (b : Bool) : String := if b then "1" else "0"
-  s!"st={st} ic={n (isConnected s)} au={n s.authenticated} enc={n (decide (s.conn = .connected) && s.encrypted)}"
+  let tg := match s.target with | .configured => "a" | .redirect => "b" | .location => "c"
+  s!"st={st} ic={n (isConnected s)} au={n s.authenticated} enc={n (decide (s.conn = .connected) && s.encrypted)} tg={tg}"
 
 def showObs (r : R) : String :=
   (if r.2.isEmpty then "-" else ",".intercalate (r.2.map showOut)) ++ "|" ++ showState r.1
